@@ -3,6 +3,7 @@ package c15
 
 import (
 	"fmt"
+	"runtime"
 	"sort"
 	"strings"
 	"sync"
@@ -10,6 +11,7 @@ import (
 	"time"
 
 	"github.com/godaddy/asherah/go/appencryption/pkg/cache"
+	"verif/kit"
 )
 
 // ---- operations ---------------------------------------------------------------------
@@ -164,12 +166,19 @@ func (s *sut) apply(o op, expectCallbacks func(lenAfter int) int) result {
 		// asynchronous delivery: wait (bounded) until the callbacks for everything that left have arrived
 		want := before + expectCallbacks(r.length)
 		deadline := time.Now().Add(3 * time.Second)
-		for s.callbacks() < want && time.Now().Before(deadline) {
+		for spins := 0; s.callbacks() < want; spins++ {
+			if spins < 2000 {
+				runtime.Gosched()
+				continue
+			}
+			if !time.Now().Before(deadline) {
+				break
+			}
 			time.Sleep(50 * time.Microsecond)
 		}
-		// give a stray extra callback a moment to show up
-		if s.callbacks() == want {
-			time.Sleep(20 * time.Microsecond)
+		// give a stray extra callback a chance to show up
+		for i := 0; i < 4; i++ {
+			runtime.Gosched()
 		}
 	}
 	r.cbs = s.take(before)
@@ -522,49 +531,58 @@ func (m *model) dump() string {
 	return sb.String()
 }
 
-// run executes a whole sequence against a fresh cache under a deadlock watchdog; it
-// returns the violation (or "") and statistics.
+// ---- deadlock watchdog -------------------------------------------------------------------
+// Sequences run inline (a goroutine per sequence dominated the cost of the exhaustive
+// part). One monitor goroutine watches a heartbeat; if a single operation makes no
+// progress for the length of the watchdog the current case is reported and the process ends.
+
+var (
+	heartbeat  atomic.Int64 // unix nanos of the last completed operation (0 = idle)
+	currentSeq atomic.Value // string: the case being executed
+	monitor    sync.Once
+)
+
+func startMonitor() {
+	monitor.Do(func() {
+		go func() {
+			for {
+				time.Sleep(time.Second)
+				hb := heartbeat.Load()
+				if hb != 0 && time.Since(time.Unix(0, hb)) > watchdog {
+					desc, _ := currentSeq.Load().(string)
+					kit.Abort(fmt.Sprintf("C15 violated: an operation did not return within %s (deadlock)\n  %s", watchdog, desc))
+				}
+			}
+		}()
+	})
+}
+
+// run executes a whole sequence against a fresh cache; it returns the violation (or "") and statistics.
 func run(cfg config, ops []op) (viol string, evictions, expiries int, at int) {
-	type out struct {
-		viol                    string
-		evictions, expiries, at int
+	startMonitor()
+	currentSeq.Store(cfg.String() + " | " + opsString(ops))
+	defer heartbeat.Store(0)
+	s := newSUT(cfg)
+	m := newModel(cfg)
+	closed := false
+	at = -1
+	for i, o := range ops {
+		heartbeat.Store(time.Now().UnixNano())
+		r := s.apply(o, m.expectedCallbacks(o))
+		if msg := m.step(o, r); msg != "" {
+			viol, at = msg, i
+			break
+		}
+		if o.kind == opClose {
+			closed = true
+		}
 	}
-	var progress atomic.Int64
-	ch := make(chan out, 1)
-	go func() {
-		s := newSUT(cfg)
-		m := newModel(cfg)
-		closed := false
-		res := out{at: -1}
-		for i, o := range ops {
-			progress.Store(int64(i))
-			r := s.apply(o, m.expectedCallbacks(o))
-			if msg := m.step(o, r); msg != "" {
-				res = out{msg, m.evictions, m.expiries, i}
-				break
-			}
-			if o.kind == opClose {
-				closed = true
-			}
-		}
-		if res.viol == "" {
-			res.evictions, res.expiries = m.evictions, m.expiries
-		}
-		if !closed {
-			// never leave event goroutines behind
-			func() { defer func() { _ = recover() }(); s.c.Close() }()
-		}
-		ch <- res
-	}()
-	timer := time.NewTimer(watchdog)
-	defer timer.Stop()
-	select {
-	case r := <-ch:
-		return r.viol, r.evictions, r.expiries, r.at
-	case <-timer.C:
-		i := int(progress.Load())
-		return fmt.Sprintf("%s (operation %d) did not return within %s: deadlock", ops[i], i, watchdog), 0, 0, i
+	if !closed {
+		// never leave event goroutines behind
+		heartbeat.Store(time.Now().UnixNano())
+		func() { defer func() { _ = recover() }(); s.c.Close() }()
 	}
+	return viol, m.evictions, m.expiries, at
 }
 
 func opsString(ops []op) string {
